@@ -207,7 +207,7 @@ PROPS['C09'] = dict(
           'non-trivial = the ball contains a pentagon or crosses a base-cell seam, a successful IJ probe, a mismatch pair, a whole-globe origin; distinct by the case tuple'),
     quick=dict(cases={'fast': 80_000, 'asan': 6_000}, enum={'fast': 8}),
     thorough=dict(cases={'fast': 1_500_000, 'asan': 80_000}, enum={'fast': 16}),
-    strata=dict(quick=['all ordered pairs res 0, res 1; res 2 from every 7th origin', 'radius-6 balls around k<=2 disks of 12 pentagons x 16 res'], thorough=['all ordered pairs res 0..2', 'radius-16 balls around pentagon disks']),
+    strata=dict(quick=['all ordered pairs res 0, res 1; res 2 from every 7th origin', 'res 3: every cell within 9 steps of each pentagon as origin x every cell within 14 steps of it', 'radius-6 balls around k<=2 disks of 12 pentagons x 16 res'], thorough=['all ordered pairs res 0..2', 'radius-16 balls around pentagon disks']),
     level_text=('every successful gridDistance is compared with the breadth-first distance on a neighbour graph derived from geometry (whole globe at res 0-2, balls of radius <=20/30 elsewhere); symmetry, 0 for a=b, success and 1 for all neighbours; '
                 'cellToLocalIj/localIjToCell mutually inverse wherever both succeed, results valid cells of the origin resolution, unit steps between neighbours away from pentagons, extreme IJ without UB'),
     level_note='trusted: geometric neighbour graph (engine/topo.hpp); gridDistance/cellToLocalIj failures are allowed wherever the statement allows them (only a=b and neighbours must succeed)',
